@@ -270,6 +270,30 @@ def _local_value(f, name):
     return None
 
 
+def _expanded_src(f, expr, depth=3):
+    """Source of expr together with the source of everything its local names
+    are computed from (tuple-unpacking assignments included): what a value is
+    built from, however many named steps the code takes."""
+    out, seen, work = [norm_src(expr)], set(), [(expr, 0)]
+    while work:
+        e, d = work.pop()
+        for x in ast.walk(e):
+            if not (isinstance(x, ast.Name) and x.id not in seen):
+                continue
+            seen.add(x.id)
+            if d >= depth:
+                continue
+            for n in own_nodes(f):
+                if not isinstance(n, ast.Assign):
+                    continue
+                for t in n.targets:
+                    if any(isinstance(y, ast.Name) and y.id == x.id
+                           for y in ast.walk(t)):
+                        out.append(norm_src(n.value))
+                        work.append((n.value, d + 1))
+    return ' ; '.join(out)
+
+
 def rule_fast(ctx):
     rr = RuleResult('C04', 'C04.fast', 'SIB',
                     'fast paths agree with the general resolver', floor=6)
@@ -297,7 +321,7 @@ def rule_fast(ctx):
             problems.append('`ref` is not upper-cased')
         else:
             inner = refv.func.value
-            cells = norm_src(inner)
+            cells = _expanded_src(f, inner)
             if 'ref' in params:
                 pass
             elif not ('_build_cel' in cells or '_build_ref' in cells):
@@ -805,5 +829,6 @@ def _cachekey(ctx):
 
 
 def run(ctx):
-    return [rule_limits(ctx), rule_groups(ctx), rule_fast(ctx), rule_case(ctx),
-            rule_quote(ctx), rule_extlink(ctx), _cachekey(ctx)]
+    S = ctx.soft
+    return [S(rule_limits, ctx), S(rule_groups, ctx), S(rule_fast, ctx), S(rule_case, ctx),
+            S(rule_quote, ctx), S(rule_extlink, ctx), S(_cachekey, ctx)]
